@@ -109,13 +109,17 @@ func walletBinary(name string) (string, error) {
 	return walletPath, walletErr
 }
 
+// walletTimeout bounds one run of the wallet binary; the child is killed when it expires (exec.CommandContext) and
+// the case fails: a wallet that neither answers nor refuses is a violation, and no process may be left behind.
+const walletTimeout = 60 * time.Second
+
 type runResult struct {
 	stdout, stderr string
 	code           int
 }
 
 func runWallet(bin, dir string, stdin []byte, args ...string) (runResult, error) {
-	ctx, cancel := context.WithTimeout(context.Background(), 5*time.Minute)
+	ctx, cancel := context.WithTimeout(context.Background(), walletTimeout)
 	defer cancel()
 	cmd := exec.CommandContext(ctx, bin, args...)
 	cmd.Dir = dir
@@ -130,6 +134,9 @@ func runWallet(bin, dir string, stdin []byte, args ...string) (runResult, error)
 			res.code = ee.ExitCode()
 			return res, nil
 		}
+		if ctx.Err() != nil {
+			return res, fmt.Errorf("the wallet did not finish within %v (a normal run takes some 10 ms) and was killed: wallet %s\nstdout: %.600s\nstderr: %.600s", walletTimeout, strings.Join(args, " "), res.stdout, res.stderr)
+		}
 		return res, fmt.Errorf("running the wallet: %v", err)
 	}
 	return res, nil
@@ -139,7 +146,7 @@ func runWallet(bin, dir string, stdin []byte, args ...string) (runResult, error)
 // each step waits until the expected prompt has appeared on stdout (the wallet writes prompts unbuffered) and only
 // then writes the line.  The wallet reads the password with one read() per prompt, so nothing may be sent early.
 func runWalletDialog(bin, dir string, steps [][2]string, args ...string) (runResult, error) {
-	ctx, cancel := context.WithTimeout(context.Background(), 5*time.Minute)
+	ctx, cancel := context.WithTimeout(context.Background(), walletTimeout)
 	defer cancel()
 	cmd := exec.CommandContext(ctx, bin, args...)
 	cmd.Dir = dir
@@ -206,6 +213,9 @@ func runWalletDialog(bin, dir string, steps [][2]string, args ...string) (runRes
 		if ee, ok := werr.(*exec.ExitError); ok && ctx.Err() == nil {
 			res.code = ee.ExitCode()
 			return res, nil
+		}
+		if ctx.Err() != nil {
+			return res, fmt.Errorf("the wallet did not finish within %v and was killed: wallet %s\nstdout: %.600s", walletTimeout, strings.Join(args, " "), res.stdout)
 		}
 		return res, fmt.Errorf("running the wallet: %v", werr)
 	}
